@@ -1,8 +1,9 @@
 CONSTANTS Waiting = "always"  Guard = "always"  SFamily = "quick"
 INIT GenInitS
-NEXT Next
+NEXT NextQ
 INVARIANT SaveTypeOK
 INVARIANT SaveReturnsWithId
+INVARIANT TopReturnsWithId
 INVARIANT RefsResolved
 INVARIANT OneRow
 INVARIANT SavedAll
